@@ -166,6 +166,65 @@ func runVF11(p *Prog, r *RuleRun) {
 			return n == "crc32.Checksum" || n == "crc32.Update"
 		}, 0)
 	}
+	// FC: the variable holding the commit record whose stored CRC is compared (found from the comparison itself)
+	cellOf := func(v ssa.Value) *ssa.Alloc {
+		for i := 0; i < 6; i++ {
+			switch x := v.(type) {
+			case *ssa.UnOp:
+				if x.Op != token.MUL {
+					return nil
+				}
+				if al, ok := x.X.(*ssa.Alloc); ok {
+					return al
+				}
+				v = x.X
+			case *ssa.FieldAddr:
+				v = x.X
+			case *ssa.Field:
+				v = x.X
+			default:
+				return nil
+			}
+		}
+		return nil
+	}
+	var fcCell *ssa.Alloc
+	for fn := range p.reachableFuncs(root) {
+		for _, b := range fn.Blocks {
+			for _, ins := range b.Instrs {
+				bo, ok := ins.(*ssa.BinOp)
+				if !ok || (bo.Op != token.EQL && bo.Op != token.NEQ) {
+					continue
+				}
+				for _, pair := range [][2]ssa.Value{{bo.X, bo.Y}, {bo.Y, bo.X}} {
+					if isCRC(pair[0]) && !isCRC(pair[1]) {
+						if c := cellOf(pair[1]); c != nil {
+							if _, isPtr := c.Type().(*types.Pointer).Elem().Underlying().(*types.Pointer); isPtr {
+								fcCell = c
+							}
+						}
+					}
+				}
+			}
+		}
+	}
+	isEntryList := func(v ssa.Value) bool {
+		// len(<slice variable of file offsets>)
+		c, ok := v.(*ssa.Call)
+		if !ok || !isBuiltinCall(c, "len") {
+			return false
+		}
+		al := cellOf(c.Call.Args[0])
+		if al == nil {
+			return false
+		}
+		sl, ok := al.Type().(*types.Pointer).Elem().Underlying().(*types.Slice)
+		if !ok {
+			return false
+		}
+		bt, ok := sl.Elem().Underlying().(*types.Basic)
+		return ok && bt.Kind() == types.Uint32
+	}
 	nCmp := 0
 	spec := &OrdSpec{Name: "recovery-crc",
 		Call: func(cx *Ctx, ci ssa.CallInstruction) CallInfo {
@@ -176,7 +235,39 @@ func runVF11(p *Prog, r *RuleRun) {
 		},
 		OnBranch: func(cx *Ctx, ifi *ssa.If, truth bool, f *Fact) {
 			bo, ok := ifi.Cond.(*ssa.BinOp)
-			if !ok || (bo.Op != token.EQL && bo.Op != token.NEQ) {
+			if !ok {
+				return
+			}
+			if fcCell != nil {
+				// "no commit frame at all": the commit record is nil
+				if c, isC := bo.Y.(*ssa.Const); isC && c.IsNil() && (bo.Op == token.EQL || bo.Op == token.NEQ) {
+					if u, ok := bo.X.(*ssa.UnOp); ok && u.Op == token.MUL && u.X == ssa.Value(fcCell) && (bo.Op == token.EQL) == truth {
+						f.TS["fc"] = "nil"
+					}
+				}
+				// "entries follow the last commit": <count recorded in the commit record> < len(<entries seen>)
+				x, y, op := bo.X, bo.Y, bo.Op
+				if isEntryList(x) {
+					x, y = y, x
+					op = map[token.Token]token.Token{token.LSS: token.GTR, token.GTR: token.LSS, token.LEQ: token.GEQ, token.GEQ: token.LEQ, token.EQL: token.EQL, token.NEQ: token.NEQ}[op]
+				}
+				if isEntryList(y) && cellOf(x) == fcCell && fieldLoadName(x) != "" {
+					var less bool
+					known := true
+					switch op {
+					case token.LSS, token.NEQ:
+						less = truth
+					case token.GEQ, token.EQL:
+						less = !truth
+					default:
+						known = false
+					}
+					if known && less {
+						f.TS["trailing"] = "yes"
+					}
+				}
+			}
+			if bo.Op != token.EQL && bo.Op != token.NEQ {
 				return
 			}
 			var other ssa.Value
@@ -220,12 +311,22 @@ func runVF11(p *Prog, r *RuleRun) {
 				r.Check(f.TS["crc-src"] == "", key, posOf(p, ret), "final batch accepted on a CRC match computed over bytes read back from the file",
 					"the CRC that accepts the final batch is not computed over bytes read back from the file")
 			default:
-				r.Trivial(key, posOf(p, ret), "path without a CRC decision (no commit frame / entries follow the last commit)")
+				switch {
+				case f.TS["fc"] == "nil":
+					r.Trivial(key+":no-commit", posOf(p, ret), "path without a CRC decision: no commit frame was found (the segment is re-initialised)")
+				case f.TS["trailing"] == "yes":
+					r.Trivial(key+":trailing", posOf(p, ret), "path without a CRC decision: entry frames follow the last commit frame, so that commit was completed and acknowledged before them")
+				default:
+					r.Fail(key, posOf(p, ret), "recovery accepts the final commit frame without comparing its CRC on a path where neither `no commit frame was found` nor `entries follow the last commit` was established: a torn final batch (commit frame on disk, part of its data not) is treated as committed; path: "+trace(f))
+				}
 			}
 		}}
 	eng := newOrdEngine(p, spec)
 	eng.RunRoot(root, nil)
 	finishEngine(r, eng)
+	if fcCell == nil {
+		r.Unknown(funcDisplay(root)+":commit-record", p.Position(root.Pos()), "cannot identify the variable holding the final commit record from the CRC comparison")
+	}
 	if nCmp == 0 {
 		r.Fail(funcDisplay(root)+":crc-comparison", p.Position(root.Pos()), "tail recovery never compares a computed CRC32 with the commit frame's stored CRC: torn final batches are accepted")
 	} else {
